@@ -94,7 +94,8 @@ class HierarchicalProblem(up.model.problem.Problem):
         Support method to calculate the set of static fluents, the set of unused fluents, the
         set of fluents_in_durations and the set of fluents_in_action_costs, all in one pass.
         """
-        # from our parents unused fluents, remove all those that appear in methods preconditions and constraints
+        # from our parents unused fluents, remove all those that appear in methods preconditions,
+        # constraints and subtask arguments, and in the initial task network
         (
             static_fluents,
             unused_fluents,
@@ -110,7 +111,11 @@ class HierarchicalProblem(up.model.problem.Problem):
         for m in self.methods:
             remove_used_fluents(*m.preconditions)
             remove_used_fluents(*m.constraints)
+            for subtask in m.subtasks:
+                remove_used_fluents(*subtask.parameters)
         remove_used_fluents(*self.task_network.constraints)
+        for subtask in self.task_network.subtasks:
+            remove_used_fluents(*subtask.parameters)
 
         return (
             static_fluents,
@@ -139,17 +144,31 @@ class HierarchicalProblem(up.model.problem.Problem):
             else:
                 return TEMPORAL
 
+        # the types of the parameters of tasks and methods and of the variables of the
+        # initial task network are used by the problem even when no object, fluent or
+        # action parameter has them
+        for task in self.tasks:
+            for param in task.parameters:
+                factory.update_problem_kind_type(param.type)
+
         ordering_kind = lvl(self.task_network)
         if len(self.task_network.variables) > 0:
             factory.kind.set_hierarchical("INITIAL_TASK_NETWORK_VARIABLES")
+            for var in self.task_network.variables:
+                factory.update_problem_kind_type(var.type)
         non_temporal = self.task_network.non_temporal_constraints()
         if len(non_temporal) > 0:
             factory.kind.set_hierarchical("TASK_NETWORK_CONSTRAINTS")
             for c in non_temporal:
                 factory.update_problem_kind_expression(c)
+        # a temporal constraint can also contain negations, disjunctions, equalities, ...
+        for c in self.task_network.temporal_constraints():
+            factory.update_problem_kind_expression(c)
 
         for method in self.methods:
             ordering_kind = max(ordering_kind, lvl(method))
+            for param in method.parameters:
+                factory.update_problem_kind_type(param.type)
             for method_cond in method.preconditions:
                 factory.kind.set_hierarchical("METHOD_PRECONDITIONS")
                 factory.update_problem_kind_expression(method_cond)
@@ -158,6 +177,8 @@ class HierarchicalProblem(up.model.problem.Problem):
                 factory.kind.set_hierarchical("TASK_NETWORK_CONSTRAINTS")
                 for c in method_non_temporal:
                     factory.update_problem_kind_expression(c)
+            for c in method.temporal_constraints():
+                factory.update_problem_kind_expression(c)
 
         if ordering_kind == TO:
             factory.kind.set_hierarchical("TASK_ORDER_TOTAL")
